@@ -120,4 +120,4 @@ def count(name, lines, ib, stats, meta):
                 c = lambda v: v if v <= 2 else 'cap-1' if v == cap - 1 else 'cap' if v == cap else 'cap+1' if v == cap + 1 else '>cap' if v > cap else '<cap'
                 stats['distinct'].add((mtu, q['more'], c(q['n'])))
                 if len(stats['samples']) < 4 and q['more']: stats['samples'].append({'mtu': mtu, 'capacity': cap, 'listed': q['n'], 'more': q['more']})
-EXPLORE = dict(ops=('frame',), mtu=True)
+EXPLORE = dict(domain='frames', ops=('frame',), mtu=True)
